@@ -36,3 +36,22 @@ mod counted_array;
 pub use crate::compiler::c::CCompilerKind;
 pub use crate::compiler::compiler::*;
 pub use crate::compiler::preprocessor_cache::PreprocessorCacheEntry;
+
+// Verification hook H1 (guard: --cfg sccache_verif): item re-exports only, no behaviour.
+#[cfg(sccache_verif)]
+pub mod verif {
+    pub use super::args::*;
+    pub use super::c::{hash_key, ArtifactDescriptor, CCompilerImpl, ParsedArguments, CACHE_VERSION};
+    pub mod gcc {
+        pub use super::super::gcc::{
+            generate_compile_commands, language_to_gcc_arg, parse_arguments, ArgData, Gcc, ARGS,
+        };
+    }
+    pub mod clang {
+        pub use super::super::clang::{Clang, ARGS};
+    }
+    pub use super::preprocessor_cache::{
+        preprocessor_cache_entry_hash_key, PreprocessorCacheEntry,
+    };
+    pub use super::rust::Rust;
+}
